@@ -1,5 +1,6 @@
 import Cfi.Container
 import Cfi.Legacy
+import Cfi.Files
 /-!
 Kernel-checked counter-examples: the *pinned* code (before the `fix:` commits)
 violates C07/C08.  These are the witnesses D4–D6 of DESIGN.md section 2.
@@ -32,6 +33,57 @@ theorem D6_bulk_removal_by_value :
     let s := run (init 0) [.append 1, .append 2]
     iter (Cfi.Legacy.removeMany eqv s [0, 1, 2]) 10 = [0, 2] ∧
     iter ([0, 1, 2].foldl (fun s r => if r ≠ s.root then remove s r else s) s) 10 = [0] := by
+  decide
+
+end Props.Legacy
+
+namespace Props.Legacy
+open Cfi Cfi.Text
+
+/-- D1: `FloatField(8, 0, 2, sep=",", value=1.5).write("")` gave `'    1.50'` on
+the pinned tree (the repaired code gives `'    1,50'`) -/
+theorem D1_separator_ignored :
+    let f : Field := Field.mk' (.flt 2 'F' [',']) 8 0
+    let x : Val := .dbl (Dbl.ofBits 0x3FF8000000000000)
+    Cfi.Legacy.renderTextFloat f x = .ok "    1.50".toList ∧ renderText f x = .ok "    1,50".toList := by
+  decide +kernel
+
+/-- D3: reading `"1;2;abc"` and then `"7"` through the same fields gave
+`[7, 2, 'abc']` on the pinned tree (repaired: `[7, None, None]`) -/
+theorem D3_carry_over :
+    let fs := [Field.mk' .int 3 0, Field.mk' .int 3 3, Field.mk' .lit 4 6]
+    let first := Cfi.Legacy.readDelim fs [.none, .none, .none] "1;2;abc".toList [';']
+    first = [.int 1, .int 2, .str "abc".toList] ∧
+    Cfi.Legacy.readDelim fs first "7".toList [';'] = [.int 7, .int 2, .str "abc".toList] ∧
+    readDelim fs "7".toList [';'] = [.int 7, .none, .none] := by
+  decide +kernel
+
+/-- D11: after one delimited use the positional read of `"  123 abcd"` gave
+`[1, '12']` on the pinned tree (constructor-built line: `[123, 'abcd']`) -/
+theorem D11_permanent_rebase :
+    let fs := [Field.mk' .int 3 2, Field.mk' .lit 4 6]
+    readPos (Cfi.Legacy.fieldsAfterDelimitedUse fs) "  123 abcd".toList = [.int 1, .str "12".toList] ∧
+    readPos fs "  123 abcd".toList = [.int 123, .str "abcd".toList] := by
+  decide +kernel
+
+/-- D7: a binary register with a 2-byte identifier and one int16 field writes 4
+bytes but the pinned read consumed 6 -/
+theorem D7_overconsumption :
+    let r : RegDef := ⟨"C1".toList, 2, [Field.mk' .int 2 2], .none⟩
+    r.recordSize = 4 ∧ Cfi.Legacy.recordSize r = 6 := by decide
+
+/-- D10: on unmatched binary content the pinned loop never advances: whatever the
+fuel, it is exhausted (here 50 elements for 2 bytes); the repaired model needs 2 -/
+theorem D10_no_progress :
+    (Cfi.Legacy.readRegLoopBinNoMatch 50 ⟨[90, 90], 0⟩).length = 50 ∧
+    (readRegFileBin [] 1 [90, 90]).toOption.map List.length = some 3 := by
+  decide
+
+/-- D8: in binary storage the pinned reader never selected a declared block -/
+theorem D8_no_dispatch :
+    let b : BlockDef UInt8 := ⟨⟨false, .chr 48⟩, ⟨false, .chr 49⟩⟩
+    Cfi.Legacy.readBlockFileBinary [48, 65, 49] = [.dflt [], .dflt [48, 65, 49]] ∧
+    readBlockFile (10 : UInt8) true [b] [48, 65, 49] = [.dflt [], .block 0 [[48, 65, 49]]] := by
   decide
 
 end Props.Legacy
